@@ -136,15 +136,21 @@ fn main() {
                 rx_checks += 1;
                 sync_seq = (sync_seq + 1) % 65536;
                 let wire_bits = ((t >> 32) << 32) as u128;
-                let res = ws.step(&json!({"e": "sync", "p": 1, "src": [2, 1], "seq": sync_seq, "two": false, "rx": format!("={}", t as u128), "c": "c0#zero", "w1": format!("={}", wire_bits)}));
+                // ... and with the correction field ToInterval(d) of the lattice's duration (every limb at its extremes): the raw offset is
+                // t - FromWire(ToWire(t)) - FromInterval(ToInterval(d)), exactly (a wire time interval is 64 bits; a conversion that goes
+                // through a 53 bit mantissa loses the low bits of the large ones)
+                let civ = dur(&v["interval"]) >> 16;
+                let with_c = rx_checks % 2 == 0 && civ.abs() < (1i128 << 62) && (civ << 16) <= t;   // the port subtracts the correction from the receive time
+                let cname = if with_c { format!("={}", civ) } else { "c0#zero".to_string() };
+                let res = ws.step(&json!({"e": "sync", "p": 1, "src": [2, 1], "seq": sync_seq, "two": false, "rx": format!("={}", t as u128), "c": cname, "w1": format!("={}", wire_bits)}));
                 if res.get("panic").is_some() { cx.fail(format!("receiving a Sync with originTimestamp {} s panicked: {}", (t >> 32) / 1_000_000_000, res["panic"]), &v); }
                 else {
                     let pr = ws.project(&res);
                     let m = pr["flt"].as_array().and_then(|a| a.iter().rev().find(|x| x["k"] == "meas")).cloned();
-                    let want = (t - (wire_bits as i128)).to_string();
+                    let want = (t - (wire_bits as i128) - if with_c { civ << 16 } else { 0 }).to_string();
                     match m {
-                        Some(m) if m["rs"] == want.as_str() && m["et"] == (t as u128).to_string().as_str() => {}
-                        other => cx.fail(format!("Sync with originTimestamp ToWire(t), t = {}: the filter saw {:?}, expected raw offset {} at event time {}", t, other, want, t), &v),
+                        Some(m) if m["rs"] == want.as_str() && m["et"] == ((t - if with_c { civ << 16 } else { 0 }) as u128).to_string().as_str() => {}
+                        other => cx.fail(format!("Sync with originTimestamp ToWire(t), t = {}, correction {} x 2^-16 ns: the filter saw {:?}, expected raw offset {} at event time {}", t, if with_c { civ } else { 0 }, other, want, t - if with_c { civ << 16 } else { 0 }), &v),
                     }
                 }
             }
